@@ -10,6 +10,13 @@ def check(tier, seed, t0):
                      workers=4, timeout=600)
     if not r.ok:
         raise vlib.ToolError("MC_X02: the token machine violates its own invariant:\n" + r.violation)
+    # the unbounded argument: Apalache discharges the inductive invariant of the typed machine (spec/TokensInd.tla)
+    adir = os.path.join(vlib.BUILD, "apalache_x02")
+    os.makedirs(adir, exist_ok=True)
+    for label, args in (("Init => IndInv", ["--init=Init", "--inv=IndInv", "--length=0"]), ("IndInv /\\ Next => IndInv'", ["--init=IndInit", "--inv=IndInv", "--length=1"])):
+        p = vlib.run(["timeout", "300", "apalache-mc", "check", "--cinit=ConstInit", "--out-dir=" + adir] + args + [os.path.join(vlib.SPEC, "TokensInd.tla")], cwd=adir, timeout=400)
+        if b"EXITCODE: OK" not in p.stdout:
+            raise vlib.ToolError("Apalache could not discharge '%s' of TokensInd:\n%s" % (label, p.stdout.decode(errors="replace")[-1200:]))
     tpath = os.path.join(vlib.BUILD, "x02_trace.ndjson")
     vlib.harness(["record", "x02", tpath, "--seed", str(seed), "--n", str(3000 if tier == "thorough" else 300)])
     events = vlib.read_ndjson(tpath)
